@@ -262,8 +262,13 @@ class sequence_variables:
                 else:
                     half = count // 2
                     try:
-                        data['median-%s' %
-                             name] = (values[half] + values[half - 1]) // 2
+                        both = values[half] + values[half - 1]
+                        if isinstance(both, int):
+                            both = both // 2
+                        else:
+                            # floor division would leave the middle range
+                            both = both / 2
+                        data['median-%s' % name] = both
                     except Exception:
                         try:
                             data['median-%s' %
